@@ -24,6 +24,17 @@
 #define N_RESOLVES 0
 #define KKT_TOL 1e-6
 
+#ifdef PHOTOSPLINE_VERIF
+/*
+ * Verification hook: set when one of the block solvers leaves its main loop
+ * because the iteration limit was reached rather than because it converged.
+ */
+int photospline_verif_nnls_cap_hit = 0;
+#define PHOTOSPLINE_VERIF_CAP_HIT() (photospline_verif_nnls_cap_hit = 1)
+#else
+#define PHOTOSPLINE_VERIF_CAP_HIT() ((void)0)
+#endif
+
 static int intcmp(const void *xa, const void *xb);
 
 /*
@@ -463,6 +474,10 @@ nnls_normal_block(cholmod_sparse *AtA, cholmod_dense *Atb, int verbose,
 #endif
                 cholmod_l_free_dense(&x_F, c);
         }
+#ifdef PHOTOSPLINE_VERIF
+        if (iter < 0)
+                PHOTOSPLINE_VERIF_CAP_HIT();
+#endif
 
         cholmod_l_free_dense(&y, c);
 
@@ -737,6 +752,10 @@ nnls_normal_block_updown(cholmod_sparse *AtA, cholmod_dense *Atb, int verbose,
 #endif
         }
 
+#ifdef PHOTOSPLINE_VERIF
+        if (iter < 0)
+                PHOTOSPLINE_VERIF_CAP_HIT();
+#endif
         cholmod_l_free_dense(&y, c);
         cholmod_l_free_factor(&L, c);
 
@@ -1221,6 +1240,10 @@ nnls_normal_block3(cholmod_sparse *AtA, cholmod_dense *Atb, int verbose,
         free(H1);
         free(H2);
 
+#ifdef PHOTOSPLINE_VERIF
+        if (iter == max_iter)
+                PHOTOSPLINE_VERIF_CAP_HIT();
+#endif
         if (verbose) {
                 if (iter == max_iter)
                         printf("VARNING! Failed to converge after ");
